@@ -287,7 +287,7 @@ theorem aw2_deserRawRows (f : Features) : AW 0 (deserRawRows f) := by
   split
   · exact aw_fail _
   · exact aw_bind0 hA (aw_tag _ (aw_zero (aw_readIntLength hA))) (fun cc => aw_bind0 hA
-      (aw_optRead hA _ (aw_tag _ (aw_zero (aw_readBytes hA)))) (fun _ => aw_bind0 hA aw_takeRest (fun _ => aw_pure _)))
+      (aw_optRead hA _ (aw_tag _ (aw_zero (aw_readBytes hA)))) (fun _ => aw_pure _))
 
 theorem aw2_metaFor (r : RawRows) (cached : Option ResultMeta) : AW 0 (metaFor r cached) := by
   have hA : 1 ≤ 2 := by omega
